@@ -166,7 +166,11 @@ func redirectChildMain(variant int) {
 		fmt.Println("SKIP play", err)
 		return
 	}
-	time.Sleep(400 * time.Millisecond)
+	// the frames follow the PLAY response at once; on a loaded machine the reader may need a moment
+	for lim := time.Now().Add(5 * time.Second); got.Load() == 0 && time.Now().Before(lim); {
+		time.Sleep(20 * time.Millisecond)
+	}
+	time.Sleep(200 * time.Millisecond)
 	done := make(chan struct{})
 	go func() { c.Close(); close(done) }()
 	select {
